@@ -167,6 +167,24 @@ Proof.
   intros Hn Hl. rewrite <- (firstn_all (trace_a packs ids newp)). apply prefix_safe; assumption.
 Qed.
 
+(* the model's own end state satisfies the salvage clause: every blob it must salvage is listed in
+   the rewritten index inside the new pack, which is present at the end *)
+Lemma model_salvage_resolvable packs ids newp h :
+  wf_packs packs = true -> ~ In newp ids -> In h (must_salvage packs ids) ->
+  In (newp, h, true) (final_view packs ids newp) /\
+  In newp (b_packs (run_a (init packs) (trace_a packs ids newp))).
+Proof.
+  intros Hw Hn Hh. split.
+  - unfold final_view, new_view. apply in_app_iff. right. apply in_map_iff. exists h. split; [reflexivity|].
+    apply salvage_complete; assumption.
+  - unfold trace_a.
+    assert (Ht : run_a (init packs) (ASavePack newp :: ASaveIdx 1 (new_view packs ids newp) :: ASaveIdx 2 (final_view packs ids newp)
+                   :: ARmIdx 0 :: ARmIdx 1 :: map ARmPack ids)
+                 = run_a (B [(2, final_view packs ids newp)] (newp :: present0 packs)) (map ARmPack ids)) by reflexivity.
+    rewrite Ht, run_rm_packs. cbn [b_packs]. apply filter_In. split; [left; reflexivity|].
+    apply negb_true_iff, inl_false. exact Hn.
+Qed.
+
 (* ================= part B ================= *)
 Section B.
   Variable store : list (id * list node).
